@@ -294,3 +294,20 @@ _TID = re.compile(r"p\('a', (\d+),")
 def tid_of(transition):
     m = _TID.match(transition.action or '')
     return int(m.group(1)) if m else 0
+
+
+def rename_some(sc, names, seed):
+    """rename_state on a seeded random subset of the states, with new names that keep the relative
+    lexicographic order (C17): name -> name + suffix, which still sorts before the next name because
+    all names of a pool have the same length and differ before the end."""
+    rng = random.Random(seed)
+    names = dict(names)
+    ids = sorted(names)
+    chosen = [i for i in ids if rng.random() < 0.6] or ids[:1]
+    rng.shuffle(chosen)
+    for i in chosen:
+        new = names[i] + rng.choice(['x', '_r', ' z', '\u00e9'])
+        sc.rename_state(names[i], new)
+        names[i] = new
+    assert sorted(names.values()) == [names[i] for i in ids], names
+    return sc, names
